@@ -330,7 +330,19 @@ func (t *ControllableTask) Launch() error {
 
 		statePollingStartTime := time.Now()
 		elapsed := 0 * time.Second
+		rpc := t.rpc
 		for {
+			if t.rpc == nil {
+				// Kill closed the client and is terminating the process: report the state it posts
+				_ = taskCmd.Wait()
+				finalState := mesos.TASK_KILLED
+				select {
+				case finalState = <-t.pendingFinalTaskStateCh:
+				default:
+				}
+				t.sendStatus(t.knownEnvironmentId, finalState, "")
+				return
+			}
 			log.WithField("partition", t.knownEnvironmentId.String()).
 				WithField("detector", t.knownDetector).
 				WithFields(logrus.Fields{
@@ -342,7 +354,7 @@ func (t *ControllableTask) Launch() error {
 				}).
 				Debug("polling task for IDLE state reached")
 
-			response, err := t.rpc.GetState(context.TODO(), &pb.GetStateRequest{}, grpc.EmptyCallOption{})
+			response, err := rpc.GetState(context.TODO(), &pb.GetStateRequest{}, grpc.EmptyCallOption{})
 			if err != nil {
 				log.WithError(err).
 					WithField("partition", t.knownEnvironmentId.String()).
@@ -366,7 +378,7 @@ func (t *ControllableTask) Launch() error {
 				t.knownPid = int(response.GetPid())
 			}
 			// NOTE: we acquire the transitioner-dependent STANDBY equivalent state
-			reachedState := t.rpc.FromDeviceState(response.GetState())
+			reachedState := rpc.FromDeviceState(response.GetState())
 
 			if reachedState == "STANDBY" && err == nil {
 				log.WithField("partition", t.knownEnvironmentId.String()).
